@@ -438,6 +438,9 @@ def run_history(mon, base, hid, steps, names, sh, snapshots_out=None):
                 post = vp.snapshot(layers)
                 sh.evaluations += 1
                 got = judge_request(step, rep, pre, post, names, sh, case)
+                if got is None and snapshots_out is not None:
+                    # (C20 compares the snapshots of several processes and does not use this model's verdicts: carry on)
+                    got = ("error",) if "err" in rep else ("restored", None)
                 if got is None:
                     return
                 st = abstract_state(v0)
@@ -457,7 +460,7 @@ def run_history(mon, base, hid, steps, names, sh, snapshots_out=None):
                     return
                 post = vp.snapshot(layers)
                 sh.evaluations += 1
-                if not judge_write(step, rep, pre, post, names, src, sh, case):
+                if not judge_write(step, rep, pre, post, names, src, sh, case) and snapshots_out is None:
                     return
             pre = post
             if snapshots_out is not None:
@@ -591,6 +594,27 @@ def rich_shard(arg):
         prev = {}       # layer name -> the value last written successfully
         for idx in idxs:
             r = vp.rng(seed, "c01-rich", idx)
+            if idx % 5 == 4:
+                # a metadata type with optional fields only (unset: an empty [metadata] table): kept over several requests
+                note, count = r.choice([None, None, "", "n"]), r.choice([None, None, 0, 7])
+                req = {"op": "allopt", "name": "opt%d" % (idx % 2), "requests": 3}
+                if note is not None:
+                    req["note"] = note
+                if count is not None:
+                    req["count"] = count
+                rep = mon.call(req)
+                sh.evaluations += 1
+                case = {"allopt": {"note": note, "count": count}}
+                bad = None if "rounds" in rep else "the first request or the write failed: %r" % (rep,)
+                for k, rd in enumerate(rep.get("rounds", [])):
+                    if rd.get("state") != {"restored": "kept"} or not rd.get("equal"):
+                        bad = "request #%d after the write reported %r and its callback saw %s (file before that request: %r)" % (k + 1, rd.get("state") or rd.get("err"), rd.get("seen"), rd.get("toml_before"))
+                        break
+                if bad:
+                    sh.violation("rich:all-optional-metadata", "metadata {note: %r, count: %r} of a type with optional fields only: %s" % (note, count, bad), case)
+                else:
+                    sh.nontrivial.add(("rich", "all-optional", note is None, count is None))
+                continue
             v = gen_rich(r)
             name = "rich%d" % (idx % 3)
             case = {"rich": v, "name": name}
